@@ -1,4 +1,5 @@
 import Drv.Sync
+import Drv.Retrieve
 import Model.FullNode
 
 /-! Driver for the full-node stream `FNODE` (C02, C05): a proposer chain built by the producer model, its parts
@@ -11,13 +12,9 @@ structure St where
   pcfg : Producer.Cfg := { chainId := "vchain", initialHeight := 1, genesisTime := 0, proposerAddr := [], key := 1, signerAddr := [] }
   prod : Producer.Node := {}
   cfg : FullNode.Cfg := { sync := { chainId := "vchain", initialHeight := 1, genesisTime := 0, proposerAddr := [] } }
-  node : FullNode.Node := {}
-  view : Retrieve.DAView := {}
-  before : Store := {}
-  ws : List SW := []
+  h : FullNode.HSt := { ok := false }
   pk : Bytes := []
   pk2 : Bytes := []
-  ok : Bool := false
   deriving Inhabited
 
 def short (b : Bytes) : String := if b.isEmpty then "-" else ((Bytes.toHex b).take 8).toString
@@ -38,7 +35,7 @@ def item (s : St) (tok : String) : Option (Bytes × Retrieve.Oracle × String) :
   if tok = "E" then some ([], FullNode.oNone, "-")
   else if tok.startsWith "J" then
     match Bytes.ofHex ((tok.drop 1).toString) with
-    | some b => some (b, FullNode.oNone, short b)
+    | some b => if b.isEmpty then none else some (b, FullNode.oNone, short b)
     | none => none
   else if tok.startsWith "FH" then
     (blk ((tok.drop 2).toString)).map fun b =>
@@ -63,16 +60,26 @@ def showBlocks (c : FullNode.Cfg) (st : Store) : String :=
   let l := hs.filterMap fun k => (st.getBlock k).map fun b => s!"{k}:{short b.sh.hdr.hash}"
   if l.isEmpty then "-" else String.intercalate "," l
 
+/-- the block at the chain height without the metadata of its data: for an empty block the sync loop builds the
+data locally and its `lastDataHash` depends on whether the previous block had been applied when the header arrived
+(order of the two event channels: free) -/
+def showHead (st : Store) (h : Nat) : String :=
+  match st.getBlock h with
+  | none => "none"
+  | some b => s!"{Drv.Prod.showSH b.sh} txs={hexList b.data.txs} ssig={Drv.Prod.sigClass b.sh.hdr b.savedSig}"
+
 def observe (c : FullNode.Cfg) (nd : FullNode.Node) (ws : List SW) : String :=
   let n := nd.full
   let h := n.store.height
   let disk := match n.store.state with | some s => Drv.Prod.showState s | none => "none"
-  s!"height={h} cursor={nd.cursor} disk={disk} mem={Drv.Prod.showState n.lastState} alive={if n.alive then 1 else 0} w={Drv.Prod.showWs ws} blocks={showBlocks c n.store} head=[{Drv.Prod.showBlock n.store h}]"
+  s!"height={h} cursor={nd.cursor} disk={disk} mem={Drv.Prod.showState n.lastState} alive={if n.alive then 1 else 0} w={Drv.Prod.showWs ws} blocks={showBlocks c n.store} head=[{showHead n.store h}]"
 
-def started (s : St) (r : Option (FullNode.Node × List SW)) (disk : Store) : St × String :=
-  match r with
-  | none => ({ s with node := { s.node with full := { s.node.full with alive := false } }, ok := false }, "start err")
-  | some (nd, ws) => ({ s with node := nd, before := disk, ws := ws, ok := true }, "start " ++ observe s.cfg nd ws)
+/-- observation after a (re)start -/
+def startObs (s : St) : String :=
+  if s.h.ok then "start " ++ observe s.cfg s.h.nd s.h.ws else "start err"
+
+/-- every operation on the node / the DA layer goes through `FullNode.hstep` -/
+def hop (s : St) (o : FullNode.HOp) : St := { s with h := FullNode.hstep s.cfg s.h o }
 
 def parseFetches (t : String) : Option (List Retrieve.Fetch) :=
   if t = "" || t = "-" then some [] else (t.splitOn ",").mapM Drv.Ret.parseFetch
@@ -88,7 +95,9 @@ def step (s : St) (line : String) : St × String :=
                                 daStart := o.nat "dastart", key := 1 }
     match Producer.start pcfg {} with
     | .error _ => ({ pcfg := pcfg, cfg := cfg }, "reset err")
-    | .ok (pn, _) => started { pcfg := pcfg, prod := pn, cfg := cfg, pk := o.bytes "pk", pk2 := o.bytes "pk2" } (FullNode.start cfg {} {}) {}
+    | .ok (pn, _) =>
+      let s1 : St := { pcfg := pcfg, prod := pn, cfg := cfg, pk := o.bytes "pk", pk2 := o.bytes "pk2", h := FullNode.hinit cfg }
+      (s1, startObs s1)
   | "produce" =>
     let (pn, _, out) := Producer.publish s.pcfg s.prod (.batch (o.list "txs") (o.nat "ts") []) .ok
     let cls := if Drv.Prod.outClass out = "nil" then "nil" else "err"
@@ -96,36 +105,40 @@ def step (s : St) (line : String) : St × String :=
   | "place" =>
     let da := o.nat "da"
     let toks := if o.str "items" = "" || o.str "items" = "-" then [] else (o.str "items").splitOn ","
-    let r := toks.foldl (fun (acc : Retrieve.DAView × List String) tok =>
+    let r := toks.foldl (fun (acc : St × List String) tok =>
       match item s tok with
       | none => (acc.1, acc.2 ++ [s!"{tok}:none"])
-      | some (b, orc, idn) =>
-        ({ acc.1 with placed := acc.1.placed ++ [(da, b, orc)], top := max acc.1.top (da + 1) }, acc.2 ++ [s!"{tok}:{idn}:{bits orc}"]))
-      (s.view, [])
-    ({ s with view := r.1 }, s!"placed da={da} head={r.1.top} " ++ (if r.2.isEmpty then "-" else String.intercalate "," r.2))
+      | some (b, orc, idn) => (hop acc.1 (.place da b orc), acc.2 ++ [s!"{tok}:{idn}:{bits orc}"]))
+      (s, [])
+    (r.1, s!"placed da={da} head={r.1.h.v.top} " ++ (if r.2.isEmpty then "-" else String.intercalate "," r.2))
   | "head" =>
-    let v := { s.view with top := max s.view.top (o.nat "n") }
-    ({ s with view := v }, s!"head={v.top}")
+    let s1 := hop s (.head (o.nat "n"))
+    (s1, s!"head={s1.h.v.top}")
   | "script" =>
     match parseFetches (o.str "outcomes") with
     | none => (s, "bad-op")
-    | some l => (if l.isEmpty then s else { s with view := s.view.setScript (o.nat "da") l }, "ok")
+    | some l => (hop s (.script (o.nat "da") l), "ok")
   | "run" =>
-    if !s.ok then (s, "dead") else
-    let before := s.node.full.store
-    let (nd, v, ws) := FullNode.run s.cfg s.node s.view
-    ({ s with node := nd, view := v, before := before, ws := ws }, "run " ++ observe s.cfg nd ws)
+    if !s.h.ok then (s, "dead") else
+    let s1 := hop s .run
+    (s1, "run " ++ observe s1.cfg s1.h.nd s1.h.ws)
   | "restart" =>
-    if !s.ok then (s, "dead") else
-    started s (FullNode.restartClean s.cfg s.node) s.node.full.store
+    if !s.h.ok then (s, "dead") else
+    let s1 := hop s .restart
+    (s1, startObs s1)
+  | "stopheld" =>
+    -- a scan served in a chosen schedule of the two channels, a clean stop with `hold` events still queued, restart
+    if !s.h.ok then (s, "dead") else
+    let s1 := hop (hop s (.runHeld (o.str "order" ≠ "dh") (o.nat "hold"))) .restart
+    (s1, startObs s1)
   | "crash" =>
-    if !s.ok then (s, "dead") else
-    let img := s.before.applyPrefix (o.nat "keep") s.ws
-    started s (FullNode.restartCrash s.cfg s.before s.ws (o.nat "keep")) img
+    if !s.h.ok then (s, "dead") else
+    let s1 := hop s (.crash (o.nat "keep"))
+    (s1, startObs s1)
   | "show" =>
-    if !s.ok then (s, "dead") else
-    let n := s.node.full
-    (s, s!"show height={n.store.height} cursor={s.node.cursor} hc={natList (Drv.Syn.sortNats (n.hdrCache.map (·.1)))} dc={natList (Drv.Syn.sortNats (n.datCache.map (·.1)))} seenH={Drv.Syn.shortHashes n.seenH} seenD={Drv.Syn.shortHashes n.seenD}")
+    if !s.h.ok then (s, "dead") else
+    let n := s.h.nd.full
+    (s, s!"show height={n.store.height} cursor={s.h.nd.cursor} hc={natList (Drv.Syn.sortNats (n.hdrCache.map (·.1)))} dc={natList (Drv.Syn.sortNats (n.datCache.map (·.1)))} seenH={Drv.Syn.shortHashes n.seenH} seenD={Drv.Syn.shortHashes n.seenD}")
   | _ => (s, "bad-op")
 
 end Drv.FN
